@@ -38,6 +38,14 @@ Inductive set_op :=
 | SAdd (vs : list bytes) | SAdded (vs : list bytes) (o_old : list bytes) | SWithout (vs : list bytes) (o_old : list bytes)
 | SNil (o_size o_count : N)   (* Size() and All() on a nil *Set *)
 | SHas (v : bytes) (o : bool) | SSize (o : N) | SSlice (o o_all : list bytes) | SDiff (vs : list bytes) (o : list bytes).
+(* persistent use of Set: a pool of set values; every op names its base(s) by pool index (resolved by the engine), derived
+   sets are appended to the pool, PObs observes EVERY set of the pool: (Slice, All, Size, Has for each key of the universe) *)
+Inductive pset_op :=
+| PNew (cap : N) | POf (vs : list bytes)
+| PAddInPlace (i : N) (vs : list bytes)
+| PAdded (i : N) (vs : list bytes) | PWithout (i : N) (vs : list bytes) | PDiff (i j : N)
+| PObs (o : list (list bytes * list bytes * N * list bool)).
+
 Inductive smap_op :=
 | MSet (k : bytes) (v : N) (o_new : bool) | MDelete (k : bytes) (o : bool) | MGet (k : bytes) (o : option N)
 | MHas (k : bytes) (o : bool) | MSize (o : N) | MKeys (o : list bytes) | MValues (o : list N) | MAll (o : list (bytes * N)).
@@ -50,6 +58,7 @@ Inductive case :=
 | CZip (ops : list zip_op)
 | CCache (probe : N) (ops : list cache_op)
 | CSet (ops : list set_op)
+| CPSet (univ : list bytes) (ops : list pset_op)
 | CSMap (ops : list smap_op)
 | CMerge (lim : N) (its : list (list (bytes * N * N))) (o : list (bytes * N * N))   (* lim > 0: the consumer stops after lim items *)
 | CMergeSorted (lim : N) (its : list (list (N * N))) (o : list (N * N)).
@@ -207,6 +216,34 @@ Fixpoint set_run (ops : list set_op) (s : set) (ref : list bytes) : list N :=
       end
   end.
 
+(* pool of set values (model) and pool of references (duplicate-free lists in first-insertion order) *)
+Definition pool_get {A} (d : A) (i : N) (pool : list A) : A := nth (N.to_nat i) pool d.
+Definition obs_eqb (univ : list bytes) (sl : list bytes) (has : bytes -> bool) (o : list bytes * list bytes * N * list bool) : bool :=
+  let '(osl, oall, osz, ohas) := o in
+  bl_eqb sl osl && bl_eqb sl oall && (osz =? N.of_nat (length sl)) && list_eqb Bool.eqb (map has univ) ohas.
+Fixpoint all2 {A B} (f : A -> B -> bool) (a : list A) (b : list B) : bool :=
+  match a, b with [], [] => true | x :: a', y :: b' => f x y && all2 f a' b' | _, _ => false end.
+Fixpoint pset_run (univ : list bytes) (ops : list pset_op) (pool : list set) (rpool : list (list bytes)) : list N :=
+  match ops with
+  | [] => []
+  | op :: r =>
+      match op with
+      | PNew _ => pset_run univ r (pool ++ [set_empty]) (rpool ++ [[]])
+      | POf vs => pset_run univ r (pool ++ [set_add vs set_empty]) (rpool ++ [ref_add [] vs])
+      | PAddInPlace i vs =>
+          pset_run univ r (upd (N.to_nat i) (set_add vs (pool_get set_empty i pool)) pool)
+                          (upd (N.to_nat i) (ref_add (pool_get [] i rpool) vs) rpool)
+      | PAdded i vs => pset_run univ r (pool ++ [set_add vs (pool_get set_empty i pool)]) (rpool ++ [ref_add (pool_get [] i rpool) vs])
+      | PWithout i vs => pset_run univ r (pool ++ [set_without vs (pool_get set_empty i pool)]) (rpool ++ [ref_without (pool_get [] i rpool) vs])
+      | PDiff i j => pset_run univ r (pool ++ [set_diff (pool_get set_empty i pool) (pool_get set_empty j pool)])
+                                     (rpool ++ [filter (fun e => negb (mem e (pool_get [] j rpool))) (pool_get [] i rpool)])
+      | PObs o =>
+          chk (all2 (fun s ob => obs_eqb univ (set_slice s) (fun v => set_has v s) ob) pool o) 6 ++
+          chk (all2 (fun rf ob => obs_eqb univ rf (fun v => mem v rf) ob) rpool o) 16 ++
+          pset_run univ r pool rpool
+      end
+  end.
+
 (* ---------- sorted map ---------- *)
 (* reference: association list sorted by key: rm_put / rm_del / rm_get of Model.SortedMap *)
 Definition kn_eqb := pair_eqb bytes_eqb N.eqb.
@@ -279,6 +316,7 @@ Definition check_case (c : case) : list N :=
   | CZip ops => zip_run ops Leaf []
   | CCache probe ops => cache_run probe ops (cache_new 0) []
   | CSet ops => set_run ops set_empty []
+  | CPSet univ ops => pset_run univ ops [] []
   | CSMap ops => smap_run ops smap_empty []
   | CMerge lim its o => merge_check lim its o
   | CMergeSorted lim its o => merge_sorted_check lim its o
